@@ -274,6 +274,8 @@ def expected_places(data, term, o):
     values, keys, _anch, kalias, valias, expand = o
     out = []
     seen = []
+    state = {"under": False}
+    pruned_anchors = set()
 
     def is_alias(x):
         a = anchor_of(x)
@@ -282,6 +284,8 @@ def expected_places(data, term, o):
         if a in seen:
             return True
         seen.append(a)
+        if state["under"]:
+            pruned_anchors.add(a)
         return False
 
     def leaves(x, loc, under):
@@ -334,7 +338,10 @@ def expected_places(data, term, o):
                 if va and not valias:
                     continue
                 if is_map(v) or is_seq(v) or is_set(v):
+                    was = state["under"]
+                    state["under"] = under or key_hit
                     walk(v, l2, under or key_hit)
+                    state["under"] = was
                 elif values and sat(term, v) and not key_hit:
                     # (a scalar value under its own matching key shares the key's path: one report)
                     out.append(Place(l2, "val", v, under))
@@ -353,8 +360,11 @@ def expected_places(data, term, o):
                     continue
                 if sat(term, m):
                     out.append(Place(loc + (("E", m),), "member", m, under))
-    walk(data, (), False)
-    return out
+    if is_map(data) or is_seq(data) or is_set(data):
+        walk(data, (), False)
+    elif values and sat(term, data):
+        out.append(Place((), "val", data, False))      # a scalar document
+    return out, pruned_anchors
 
 
 def coord_index(data):
@@ -411,26 +421,56 @@ def resolve(data, proc, idx, text):
     return locs, ids, len(ncs)
 
 
+def anchors_along(data, loc):
+    """Anchor names of every key / node passed on the way to `loc`."""
+    out = []
+    x = data
+    for kind, r in loc:
+        try:
+            if kind == "K":
+                for k in x.keys():
+                    if k == r:
+                        out.append(anchor_of(k))
+                x = x[r]
+            elif kind == "I":
+                x = x[r]
+            else:
+                for m in x:
+                    if m == r:
+                        out.append(anchor_of(m))
+                break
+        except Exception:  # noqa
+            break
+        out.append(anchor_of(x))
+    return [a for a in out if a is not None]
+
+
 def loc_str(loc):
     return "/".join("%s:%r" % (k, (str(r) if not isinstance(r, int) else r)) for k, r in loc) or "<root>"
 
 
-UNSAFE_CHARS = set("*")
-
-
-def unsafe_key(k, sep):
-    """Keys whose printed section cannot name them again (finding F-key)."""
+def unsafe_key(k, sep, at_root, member=False):
+    """Keys / set members whose printed section does not name them again
+    (known finding F2): escape_path_section cannot protect them."""
+    if isinstance(k, bool) or k is None or isinstance(k, float):
+        return True
+    if isinstance(k, int):
+        return member            # int keys of mappings resolve; int set members do not
     if not isinstance(k, str):
         return True
-    if k == "" or k.strip() != k:
+    if k == "" or "*" in k or k[0] == "&":
         return True
-    if "*" in k or k[0] in "&!" or "\\" in k:
+    special = "\\()[]^$% '\"" + ("." if sep == "dot" else "/")
+    for i in range(len(k) - 1):
+        if k[i] == "\\" and k[i + 1] in special:
+            return True
+    if at_root and sep == "dot" and k[0] == "/":
         return True
-    if sep == "dot" and k[0] == "/":
-        return True
-    if k[0] in "+-" or k.isdigit() or (k[0] == "-" and k[1:].isdigit()):
-        return False
     return False
+
+
+def unsafe_on(loc, sep):
+    return any((kind in ("K", "E")) and unsafe_key(r, sep, i == 0, kind == "E") for i, (kind, r) in enumerate(loc))
 
 
 def discrepancies(case):
@@ -449,7 +489,7 @@ def discrepancies(case):
     _, data, res, term = r
     out = []
     try:
-        exp = expected_places(data, term, o)
+        exp, pruned_anchors = expected_places(data, term, o)
     except Exception as e:  # noqa
         return [("other", "brute-force walk failed: %r" % (e,))]
     idx = coord_index(data)
@@ -474,10 +514,12 @@ def discrepancies(case):
         for l in sorted(locs, key=repr):
             for e in exp_by_loc.get(l, ()):
                 known = True
-                if not e.taken and cand is None:
+                if not e.taken and (cand is None or (cand.under_key_hit and not e.under_key_hit)):
                     cand = e
         if cand is not None:
             cand.taken = True
+        elif pruned_anchors and any(a in pruned_anchors for l in locs for a in anchors_along(data, l)):
+            out.append(("prune", "path %r reported for an alias whose anchor lies beneath a matched key" % s))
         elif known:
             out.append(("twice", "path %r reported although every place it resolves to was already reported" % s))
         else:
@@ -485,9 +527,38 @@ def discrepancies(case):
                         % (s, ", ".join(loc_str(l) for l in sorted(locs, key=repr)), expr, o)))
     for e in exp:
         if not e.taken:
-            tag = "prune" if e.under_key_hit else "missed"
+            if e.loc == ():
+                tag = "scalarroot"
+            elif unsafe_on(e.loc, sep):
+                tag = "unsafekey"
+            elif e.under_key_hit:
+                tag = "prune"
+            else:
+                tag = "missed"
             out.append((tag, "no path reported for %s at %s" % (e.kind, loc_str(e.loc))))
     return out
+
+
+REPORT_SIDE = ("noresolve", "multi", "twice", "unsound")
+
+
+def unexplained(d):
+    """Discrepancies no known finding accounts for."""
+    bad = [x for x in d if x[0] in ("other", "missed")]
+    rs = [x for x in d if x[0] in REPORT_SIDE]
+    nunsafe = sum(1 for x in d if x[0] == "unsafekey")
+    if len(rs) > nunsafe:       # each wrong report must pair with one place under an unsafe key
+        bad += rs
+    return bad
+
+
+def _finding(tag):
+    def pred(case, obs):
+        if load(case[0])[0] != "ok":
+            return False
+        d = discrepancies(case)
+        return bool(d) and not unexplained(d) and any(t == tag for t, _ in d)
+    return pred
 
 
 def _safe_str(p):
@@ -504,11 +575,17 @@ def judge(case, obs):
     d = discrepancies(case)
     if not d:
         return None
-    d.sort(key=lambda t: 0 if t[0] == "other" else 1)
+    u = unexplained(d)
+    if u:
+        d = u + [x for x in d if x not in u]
     return "%s: %s" % (d[0][0], d[0][1]) + ("" if len(d) == 1 else "  (+%d more)" % (len(d) - 1))
 
 
-FINDING_PREDS = {}
+FINDING_PREDS = {
+    "key_match_prunes_subtree": _finding("prune"),
+    "unsafe_key_section": _finding("unsafekey"),
+    "scalar_document": _finding("scalarroot"),
+}
 
 
 def classify(case, obs):
